@@ -261,6 +261,24 @@ def run(ck):
 
     # ------------------------------------------------------------------ C20.2 / C20.3 producers
     layouts = []
+    from ..rules.common import stale_reads
+
+    def _is_record_append(s0):
+        return isinstance(s0, ast.Expr) and isinstance(s0.value, ast.Call) and isinstance(s0.value.func, ast.Attribute) \
+            and s0.value.func.attr == "append" and s0.value.args and isinstance(s0.value.args[0], ast.List)
+    for fn in finders:
+        n_app = sum(1 for s0 in ast.walk(fn.node) if _is_record_append(s0))
+        ck.floor(f"C20.5 record appends (statements) in {fn.module.name}", n_app, 1)
+        stale = stale_reads(fn, _is_record_append)
+        for s0, name in stale[:1]:
+            ck.violation("C20.5", f"{fn.module.name.split('.')[-1]}.{fn.name}:same-iteration", where(fn, s0),
+                         f"a record is appended where `{name}` is not computed on every path of the current iteration: for a breakpoint "
+                         "without a following pair the values of the breakpoint handled before are reported again, under the current "
+                         "molecule's id (a call no breakpoint supports)",
+                         found=ast.unparse(s0)[:120], required="the record's coordinates are assigned on every path that reaches the append")
+        if not stale:
+            ck.ok("C20.5", f"{fn.module.name.split('.')[-1]}.{fn.name}:same-iteration", fn.where,
+                  f"{n_app} record appends read only values bound on every path of their own iteration", "")
     for fn in finders:
         paths = explore(ck, fn, unroll=(1,), max_paths=4000, inline=1)
         appends = {}
